@@ -40,7 +40,11 @@ def _bootstrap_schema_migrations(conn: sqlite3.Connection) -> None:
     uv_row = cur.execute("PRAGMA user_version").fetchone()
     legacy_version = int(uv_row[0]) if uv_row else 0
 
-    cur.executescript(_SCHEMA_MIGRATIONS_DDL)
+    # Create the table and seed it in ONE transaction: if the process dies in
+    # between, a later run must not find an empty schema_migrations table on a
+    # database whose legacy migrations were already applied.
+    cur.execute("BEGIN")
+    cur.execute(_SCHEMA_MIGRATIONS_DDL)
 
     if legacy_version > 0:
         # Seed rows for existing server migrations
@@ -49,7 +53,8 @@ def _bootstrap_schema_migrations(conn: sqlite3.Connection) -> None:
                 "INSERT OR IGNORE INTO schema_migrations (package, version) VALUES (?, ?)",
                 ("server", v),
             )
-        conn.commit()
+    conn.commit()
+    if legacy_version > 0:
         logger.debug(
             "Bootstrapped schema_migrations from PRAGMA user_version=%d", legacy_version
         )
